@@ -389,6 +389,8 @@ MN_PLANS = {
     # ... and while the miner thread serves a work request (reads head + pool, assembles a candidate) and the block being
     # delivered contains the pending transaction
     'request-vs-block-including-pending-tx': 'valid-includes-pending',
+    # ... and a transaction is delivered (admitted to the pool) while the work request is served
+    'request-vs-transaction-delivery': 'tx',
 }
 WKEYS = [world.Key(0x6101 + i) for i in range(3)]
 
@@ -419,6 +421,9 @@ def mn_world():
     # the framing layer and the socket plumbing belong to the networking thread alone: executed atomically
     trace[remote_peer.__file__] = ('line', frozenset(['receive', 'handle_message_data', 'handle_receive_data', 'handle_can_send',
                                                       '_get_msg_id', '__init__']))
+    # candidate assembly (called by the miner's work-request handler) reads the pending transactions more than once
+    from skepticoin import consensus
+    trace[consensus.__file__] = ('line-only', frozenset(['construct_block_pow_evidence_input', 'construct_coinbase_transaction']))
     _W['mn'] = dict(W9=W9, trace=trace, win={})
     return _W['mn']
 
@@ -435,6 +440,8 @@ def mn_world_coarse():
              blockstore.__file__: ('line', frozenset(['write_blocks_to_disk'])),
              manager.__file__: 'call', local_peer.__file__: 'call',
              remote_peer.__file__: ('call', W['trace'][remote_peer.__file__][1])}
+    from skepticoin import consensus
+    trace[consensus.__file__] = W['trace'][consensus.__file__]
     _W['mnc'] = dict(trace=trace)
     return _W['mnc']
 
@@ -596,6 +603,17 @@ def mn_check(x, cx, bad):
                     if tg:
                         bad.append(('C12:candidate-inconsistent', "the candidate handed to the miner builds on %s and contains a "
                                     "transaction that is not valid there (%s)" % ('/'.join(par.path), ', '.join(sorted(tg)))))
+                # ... and its reward pays exactly the subsidy plus the fees of the transactions it contains
+                try:
+                    fees = sum(sum(par.utxo[refmodel.refkey(i.output_reference)][0] for i in t.inputs) - sum(o.value for o in t.outputs)
+                               for t in txs_[1:])
+                    paid = sum(o.value for o in txs_[0].outputs)
+                    if paid != refmodel.subsidy(par.height + 1) + fees:
+                        bad.append(('C12:candidate-reward-not-exact', "the candidate handed to the miner contains %d pending transaction(s) "
+                                    "paying fees of %d in all, its reward pays subsidy + %d" % (
+                                        len(txs_) - 1, fees, paid - refmodel.subsidy(par.height + 1))))
+                except KeyError:
+                    pass
         except Exception as e:
             bad.append(('C12:candidate-inconsistent', "no candidate recorded for the request: %r" % (e,)))
     if cx.get('S') is not None:
